@@ -14,6 +14,7 @@ import (
 func createCmd(s eval.State, args []object.Object) (*exec.Cmd, *object.Error) {
 	cmdArgs := make([]string, 0, len(args))
 	for _, arg := range args {
+		arg = object.Value(arg) // only the declared (first) argument is dereferenced by the caller.
 		if arg.Type() != object.STRING {
 			return nil, s.Errorfp("exec: argument %s not a string", arg.Inspect())
 		}
